@@ -238,8 +238,10 @@ func (s *socket) onError(err error) {
 func (s *socket) schedulePing() {
 	s.pingIntervalTimer.Store(utils.SetTimeout(func() {
 		socket_log.Debug("writing ping packet - expecting pong within %dms", int64(s.server.Opts().PingTimeout()/time.Millisecond))
-		s.sendPacket(packet.PING, nil, nil, nil)
+		// arm the timeout before the ping leaves: a pong that is processed between the
+		// two calls must find (and clear) the timer of this very ping
 		s.resetPingTimeout()
+		s.sendPacket(packet.PING, nil, nil, nil)
 	}, s.server.Opts().PingInterval()))
 }
 
